@@ -740,8 +740,8 @@ const ruleC14 = "payloader: 1-2 calls of 1-6 HEVC NAL units (types 0-47, layer 0
 func TestC14(t *testing.T) {
 	r := begin(t, "C14", "exploration", ruleC14)
 	defer r.finish()
-	subC14Pay.rapidRun(r, n(12000, 700000), genH265PayCase)
-	subC14Dec.rapidRun(r, n(15000, 700000), genH265DecCase)
+	subC14Pay.rapidRun(r, n(12000, 450000), genH265PayCase)
+	subC14Dec.rapidRun(r, n(15000, 450000), genH265DecCase)
 	// accessor enumerations
 	type dom struct {
 		kind string
